@@ -52,6 +52,9 @@ func newSubject(c config) ro.Subject[int] {
 // ops: N = Next(fresh value), E, C, S = subscribe a new subscriber, U0..U2 = unsubscribe subscriber i
 var alphabet = []string{"N", "E", "C", "S", "U0", "U1", "U2"}
 
+// alphabetX: with X = subscribe a subscriber that unsubscribes itself inside its first callback
+var alphabetX = []string{"N", "E", "C", "S", "X", "U0", "U1"}
+
 func plan(tier string, seed int64) []driver.Case {
 	maxLen, nConc := 6, 600
 	if tier == "thorough" {
@@ -63,6 +66,18 @@ func plan(tier string, seed int64) []driver.Case {
 		for _, a := range alphabet {
 			for _, b := range alphabet {
 				cases = append(cases, driver.Case{ID: fmt.Sprintf("seq/%s/%s-%s", c, a, b), P: map[string]string{"kind": "seq", "subject": string(c.kind), "n": fmt.Sprint(c.n), "prefix": a + " " + b, "len": fmt.Sprint(maxLen)}})
+			}
+		}
+	}
+	// sequences with self-unsubscribing subscribers (every sequence of that length that starts with X or
+	// has X after one other operation)
+	for _, c := range configs() {
+		for _, a := range alphabetX {
+			for _, b := range alphabetX {
+				if a != "X" && b != "X" {
+					continue
+				}
+				cases = append(cases, driver.Case{ID: fmt.Sprintf("seqx/%s/%s-%s", c, a, b), P: map[string]string{"kind": "seq", "subject": string(c.kind), "n": fmt.Sprint(c.n), "prefix": a + " " + b, "len": fmt.Sprint(maxLen - 1), "alphabet": "x"}})
 			}
 		}
 	}
@@ -123,6 +138,21 @@ func (l *live) apply(op string) {
 		r := rec.New(fmt.Sprintf("sub%d", len(l.recs)))
 		l.recs = append(l.recs, r)
 		l.subs = append(l.subs, l.subj.Subscribe(rec.Raw[int](r)))
+	case op == "X":
+		// a subscriber that unsubscribes itself inside the first callback it gets (the subscription
+		// object is handed to it through a pre-built subscriber, as a pipeline stage would have it)
+		r := rec.New(fmt.Sprintf("sub%d", len(l.recs)))
+		var self ro.Subscriber[int]
+		r.OnEvent = func(*rec.Event) {
+			if self != nil {
+				s := self
+				self = nil
+				s.Unsubscribe()
+			}
+		}
+		self = ro.NewSubscriber[int](rec.Raw[int](r))
+		l.recs = append(l.recs, r)
+		l.subs = append(l.subs, l.subj.Subscribe(self))
 	case strings.HasPrefix(op, "U"):
 		i := int(op[1] - '0')
 		if i < len(l.subs) {
@@ -142,6 +172,9 @@ func applyModel(m *sm.State, op string, next *int, nsubs *int) {
 		m.Complete()
 	case op == "S":
 		m.Subscribe(*nsubs)
+		*nsubs++
+	case op == "X":
+		m.SubscribeAuto(*nsubs)
 		*nsubs++
 	case strings.HasPrefix(op, "U"):
 		i := int(op[1] - '0')
@@ -164,7 +197,7 @@ func runSeq(c driver.Case) driver.Result {
 		m := sm.New(cfg.kind, cfg.n, 0)
 		next, nsubs := 0, 0
 		for step, op := range seq {
-			if op == "S" && nsubs >= 3 {
+			if (op == "S" || op == "X") && nsubs >= 3 {
 				return nil
 			}
 			st, dump, pan := quiesce.Call(func() { l.apply(op) }, 10*time.Second)
@@ -197,12 +230,16 @@ func runSeq(c driver.Case) driver.Result {
 		sequences++
 		return nil
 	}
+	alpha := alphabet
+	if c.Get("alphabet") == "x" {
+		alpha = alphabetX
+	}
 	var gen func(seq []string) *driver.Result
 	gen = func(seq []string) *driver.Result {
 		if len(seq) == maxLen {
 			return check(seq)
 		}
-		for _, a := range alphabet {
+		for _, a := range alpha {
 			if r := gen(append(append([]string(nil), seq...), a)); r != nil {
 				return r
 			}
